@@ -262,7 +262,7 @@ def _replay_worker(args):
 
 
 def _write_replay(pid, name, case, msg, details, seed, tier, tags=None):
-    d = os.path.join(ROOT, "violations", pid)
+    d = os.path.join(os.environ.get("VERIF_VIOL_DIR") or os.path.join(ROOT, "violations"), pid)
     os.makedirs(d, exist_ok=True)
     path = os.path.join(d, f"{name.replace('/', '_')}-seed{seed}-{case_hash(case)}.json")
     with open(path, "w") as f:
@@ -319,7 +319,7 @@ def main(argv=None):
         return 0
 
     subchecks = [sc for sc in mod.SUBCHECKS if (not a.only or a.only in sc.name)]
-    vdir = os.path.join(ROOT, "violations", pid)
+    vdir = os.path.join(os.environ.get("VERIF_VIOL_DIR") or os.path.join(ROOT, "violations"), pid)
     if os.path.isdir(vdir) and not a.only:
         for fn in os.listdir(vdir):
             os.remove(os.path.join(vdir, fn))
